@@ -335,6 +335,7 @@ def main(argv):
             "the payload themselves. Not decided: whether the client really initialised every slot before assume_init (its unsafe obligation)."
             " Added later: C01's R-DESTROY as a premise (the last owner destroys the payload and gives the block back on every exit, a panicking element destructor included)."
             ' R-UNIQUE-VIEW.'
+            ' Round thirteen/fourteen: R-ASSUME-CALLERS accepts a fill loop run through before the re-typing; R-PARKED `forgotten` clause; R-PANIC-DECLINE as in C03.'
         ),
         rule_text="instances = uninit constructors, assume_init functions, the header write, the deprecated writers",
         trusted_base=["rustc's resolved types", "MaybeUninit<T> has no drop glue (language guarantee)", "balance engine (C01/C04)"],
